@@ -7,6 +7,7 @@ import Driver.PunyCmd
 import Driver.PatCmd
 import Driver.AggCmd
 import AdaVerif.Model.FastScan
+import AdaVerif.Model.PathPrepared
 /-
 Model driver: same line protocol as harness/ada_harness.cpp, answered by the Lean Model/Spec.
 -/
@@ -59,6 +60,8 @@ def step (a : List String) : String :=
   | "url.model" :: rest => cmdUrlModel rest
   | ["canfast", h] => match Model.FastScan.fastScan (unhexs h) with
     | some true => "t" | some false => "f" | none => "n"
+  | ["prepath", ty, hin, hpath] => hexs (Model.PathPrepared.parsePreparedPath (unhexs hin) (natArg ty) (unhexs hpath))
+  | ["shorten", ty, hpath] => hexs (Model.PathPrepared.shortenPath (unhexs hpath) (natArg ty))
   | ["ipv4fast", h] => match Model.FastScan.ipv4Fast (unhexs h) with
     | some a => toString a | none => "fail"
   | "spec.canon" :: comp :: value :: proto :: hints => cmdSpecCanon comp value proto hints
